@@ -963,6 +963,78 @@ ALL_BRANCHES = [
 ]
 
 
+class _Boom(BaseException):
+    """neither an Exception nor a cancellation"""
+
+
+def run_baseexception_leg(res: Result, only: dict | None = None) -> None:
+    """A portal task that raises a BaseException which is not an Exception: the caller still gets
+    exactly that exception (the portal itself goes down with it, which is why this is a leg of its
+    own: oracle only, outside the model)."""
+    from anyio.from_thread import start_blocking_portal
+
+    for loop in ("asyncio", "uvloop"):
+        for api in ("start_task_soon", "call"):
+            for kind in ("sync", "coro"):
+                case = {"baseexception": {"loop": loop, "api": api, "fn": kind}}
+                if only is not None and only != case["baseexception"]:
+                    continue
+                got: dict[str, Any] = {}
+                boom = _Boom("x")
+
+                def target() -> None:
+                    try:
+                        with start_blocking_portal("asyncio", {"use_uvloop": loop == "uvloop"}) as portal:
+                            if kind == "sync":
+                                def f() -> None:
+                                    raise boom
+                            else:
+                                async def f() -> None:  # type: ignore[misc]
+                                    raise boom
+                            try:
+                                if api == "call":
+                                    # portal.call() blocks without a time limit: run it in a helper so
+                                    # that a lost exception shows as "hung", not as a stuck check
+                                    box: dict[str, Any] = {}
+
+                                    def caller() -> None:
+                                        try:
+                                            portal.call(f)
+                                            box["out"] = "returned"
+                                        except BaseException as e:  # noqa: BLE001
+                                            box["out"] = e
+
+                                    th = threading.Thread(target=caller, daemon=True)
+                                    th.start()
+                                    th.join(4)
+                                    out = box.get("out", "hung")
+                                    if isinstance(out, BaseException):
+                                        raise out
+                                    got["out"] = out
+                                else:
+                                    portal.start_task_soon(f).result(timeout=4)
+                                    got["out"] = "returned"
+                            except _Boom as e:
+                                got["out"] = "same" if e is boom else "another _Boom"
+                            except concurrent.futures.TimeoutError:
+                                got["out"] = "hung"
+                            except BaseException as e:  # noqa: BLE001
+                                got["out"] = type(e).__name__
+                    except BaseException as e:  # noqa: BLE001
+                        got["exit"] = type(e).__name__
+
+                t = threading.Thread(target=target, daemon=True)
+                t.start()
+                t.join(20)
+                res.evaluations += 1
+                res.stats["baseexception_cases"] = res.stats.get("baseexception_cases", 0) + 1
+                if t.is_alive() or got.get("out") != "same":
+                    res.violations.append(Violation(
+                        case, f"a portal task ({api}, {kind}, {loop}) raised a BaseException that is not an "
+                              f"Exception: the caller observed {got.get('out', 'nothing (still blocked)')!r} "
+                              f"instead of that exception", "C15:baseexception-not-delivered"))
+
+
 def run(ctx: Ctx) -> Result:
     res = Result(rule="1..4 (quick) / 1..6 (thorough) calls from their own caller threads through "
                       "portal.call / start_task_soon / start_task (plain callables, gated coroutines that "
@@ -987,12 +1059,17 @@ def run(ctx: Ctx) -> Result:
             break
     hit = res.stats.get("model_branch_hits", {})
     res.stats["model_branches_unhit"] = [b for b in ALL_BRANCHES if b not in hit]
+    if ctx.focus is None:
+        run_baseexception_leg(res)
     return res
 
 
 def replay(ctx: Ctx, case: Any) -> Result:
     res = Result(rule="replay")
-    run_cases([case], res)
+    if isinstance(case, dict) and "baseexception" in case:
+        run_baseexception_leg(res, only=case["baseexception"])
+    else:
+        run_cases([case], res)
     return res
 
 
